@@ -227,8 +227,10 @@ fn cmd_digest(args: &[String]) {
     let workers: usize = arg_after(args, "--workers").and_then(|s| s.parse().ok()).unwrap_or(16);
     let thorough = arg_after(args, "--tier") == Some("thorough");
     let seed = verif_seed();
+    runner::DIGEST_EVENTS.store(true, std::sync::atomic::Ordering::Relaxed);
     let res = runner::run_batch(p, seed, thorough, count, workers, "/nonexistent");
     let mut h = simcore::rng::Fnv::new();
+    h.u64(res.stats.ev_digest);
     h.u64(res.evaluations);
     h.u64(res.skipped);
     for (k, v) in &res.stats.counters {
